@@ -632,9 +632,12 @@ def newBoundFunction (target : Nat) (this : V) (args : List V) : M Nat := do
   pure o
 
 /-- type_arguments.go:7 newArgumentsObject -/
+def argumentsObject (indexOfParameterName : List String) (stash : Nat) : Obj :=
+  { cls := "Arguments", proto := some objProto, val := .arguments indexOfParameterName stash,
+    props := (List.range indexOfParameterName.length).map fun i => (toString i, p111 .undef) }
+
 def newArgumentsObject (indexOfParameterName : List String) (stash : Nat) (length : Nat) : M Nat := do
-  let idx : List (String × Pty) := (List.range indexOfParameterName.length).map fun i => (toString i, p111 .undef)
-  let o ← allocObj { cls := "Arguments", proto := some objProto, props := idx, val := .arguments indexOfParameterName stash }
+  let o ← allocObj (argumentsObject indexOfParameterName stash)
   let _ ← defineProperty o "length" (p101 (.num length)) false
   pure o
 
@@ -747,6 +750,50 @@ inductive Step where
   | cont (result : SV)          -- resultContinue
   | brk (result : SV)           -- resultBreak
   | ret (v : SV)                -- resultReturn: the result value itself
+
+/-! ## entering code: declarations (no evaluation involved) -/
+
+/-- cmpl_evaluate.go:79 cmplFunctionDeclaration -/
+def functionDeclaration : Nat → FDecls → M Unit
+  | 0, _ => outOfFuel
+  | _+1, .nil => pure ()
+  | n+1, .cons name f r => do
+    let sc ← curScope
+    let o ← newNodeFunction f sc.lexical
+    let has ← hasBinding sc.variable_ name
+    if !has then createBinding sc.variable_ name sc.eval (.ref o)
+    else setBinding sc.variable_ name (.ref o) false
+    functionDeclaration n r
+
+/-- cmpl_evaluate.go:100 cmplVariableDeclaration -/
+def variableDeclaration : List String → M Unit
+  | [] => pure ()
+  | name :: r => do
+    let sc ← curScope
+    let has ← hasBinding sc.variable_ name
+    if !has then createBinding sc.variable_ name sc.eval .undef else pure ()
+    variableDeclaration r
+
+/-- cmpl_evaluate.go:27–72: what cmplCallNodeFunction does before it evaluates the body -/
+def instantiateNode (n : Nat) (function : Nat) (stash : Nat) (ps : List String) (vs : List String) (ds : FDecls)
+    (argumentList : List V) : M Unit := do
+  let sc ← curScope
+  -- :36–54 parameters
+  bindParams sc.lexical ps argumentList 0
+  -- :56–69 the arguments object, unless a parameter is called `arguments`
+  if !ps.contains "arguments" then do
+    let ipn := indexOfParameterNames ps argumentList.length
+    let arguments ← newArgumentsObject ipn stash argumentList.length
+    let _ ← defineProperty arguments "callee" (p101 (.ref function)) false
+    let σ ← getSt
+    (match σ.stash? stash with
+     | some (.fn o props _) => setStash stash (.fn o props (some arguments))
+     | _ => pure ())
+    setValue sc.lexical "arguments" (.ref arguments) false
+    defineUnmapped arguments ipn argumentList argumentList.length 0
+  else pure ()
+  functionDeclaration n ds                                                          -- :71
+  variableDeclaration vs                                                            -- :72
 
 /-! ## The evaluators -/
 
@@ -940,27 +987,6 @@ def evalProgram : Nat → List String → FDecls → FSs → M V
     let r ← evalList n body .undef
     pure (match r with | .val v => v | .ret v => v | _ => .undef)
 
-/-- cmpl_evaluate.go:79 cmplFunctionDeclaration -/
-def functionDeclaration : Nat → FDecls → M Unit
-  | 0, _ => outOfFuel
-  | _+1, .nil => pure ()
-  | n+1, .cons name f r => do
-    let sc ← curScope
-    let o ← newNodeFunction f sc.lexical
-    let has ← hasBinding sc.variable_ name
-    if !has then createBinding sc.variable_ name sc.eval (.ref o)
-    else setBinding sc.variable_ name (.ref o) false
-    functionDeclaration n r
-
-/-- cmpl_evaluate.go:100 cmplVariableDeclaration -/
-def variableDeclaration : List String → M Unit
-  | [] => pure ()
-  | name :: r => do
-    let sc ← curScope
-    let has ← hasBinding sc.variable_ name
-    if !has then createBinding sc.variable_ name sc.eval .undef else pure ()
-    variableDeclaration r
-
 /-- type_function.go:164 object.call -/
 def callObj : Nat → Nat → V → List V → M V
   | 0, _, _, _ => outOfFuel
@@ -1014,23 +1040,7 @@ def callNodeFunction : Nat → Nat → Nat → FE → List V → M V
   | n+1, function, stash, node, argumentList =>
     match node with
     | .func _ ps vs ds body => do
-      let sc ← curScope
-      -- :36–54 parameters
-      bindParams sc.lexical ps argumentList 0
-      -- :56–69 the arguments object, unless a parameter is called `arguments`
-      if !ps.contains "arguments" then do
-        let ipn := indexOfParameterNames ps argumentList.length
-        let arguments ← newArgumentsObject ipn stash argumentList.length
-        let _ ← defineProperty arguments "callee" (p101 (.ref function)) false
-        let σ ← getSt
-        (match σ.stash? stash with
-         | some (.fn o props _) => setStash stash (.fn o props (some arguments))
-         | _ => pure ())
-        setValue sc.lexical "arguments" (.ref arguments) false
-        defineUnmapped arguments ipn argumentList argumentList.length 0
-      else pure ()
-      functionDeclaration n ds                                                          -- :71
-      variableDeclaration vs                                                            -- :72
+      instantiateNode n function stash ps vs ds argumentList
       let result ← evalBlock n body                                                     -- :74 node.body is a block
       -- :75–79, then type_function.go:221–224
       pure (match result with | .ret v => v | _ => .undef)
